@@ -24,6 +24,7 @@ import (
 	"github.com/openziti/storage/ast"
 	"github.com/pkg/errors"
 	"go.etcd.io/bbolt"
+	"strings"
 )
 
 type Constrained interface {
@@ -1006,9 +1007,16 @@ func (index *fkDeleteCascadeConstraint) ProcessBeforeUpdate(*IndexingContext) {
 func (index *fkDeleteCascadeConstraint) ProcessAfterUpdate(*IndexingContext) {
 }
 
+var zqlStringEscaper = strings.NewReplacer(`\`, `\\`, `"`, `\"`, "\f", `\f`, "\n", `\n`, "\r", `\r`, "\t", `\t`)
+
+// quoteZqlString renders a value as a ZitiQL string literal denoting exactly that value
+func quoteZqlString(val string) string {
+	return `"` + zqlStringEscaper.Replace(val) + `"`
+}
+
 func (index *fkDeleteCascadeConstraint) ProcessBeforeDelete(ctx *IndexingContext) {
 	if !ctx.ErrHolder.HasError() {
-		filter, err := ast.Parse(index.symbol.GetStore(), fmt.Sprintf(`%v = "%v"`, index.symbol.GetName(), string(ctx.RowId)))
+		filter, err := ast.Parse(index.symbol.GetStore(), fmt.Sprintf(`%v = %v`, index.symbol.GetName(), quoteZqlString(string(ctx.RowId))))
 		if ctx.ErrHolder.SetError(err) {
 			return
 		}
